@@ -22,7 +22,9 @@ IntLits(col) ==
     [] col = "length(name)" -> { IntL(v) : v \in {2, 3, 4, 5, 6, 7, 8, 9} }
 
 IntCols == {"size", "uid", "gid", "hardlinks", "line_count", "length(name)"}
-IntAtomSet == UNION { { A1(col, op, l, "int/" \o op) : op \in CmpOps, l \in IntLits(col) } : col \in IntCols }
+DecAtoms == { A1(col, op, l, "int/" \o op \o "/fraction") : op \in CmpOps, col \in {"size", "length(name)", "line_count"},
+                                                          l \in { DecL(3, 2, "1.5"), DecL(5, 2, "2.5"), DecL(1, 2, "0.5"), DecL(20, 2, "10.0"), DecL(19, 2, "9.5"), DecL(2047, 2, "1023.5") } }
+IntAtomSet == DecAtoms \cup UNION { { A1(col, op, l, "int/" \o op) : op \in CmpOps, l \in IntLits(col) } : col \in IntCols }
 BetweenAtoms == { A("size", "between", IntL(9), IntL(11), "int/between"), A("size", "between", IntL(10), IntL(10), "int/between"),
                   A("size", "between", IntL(10), IntL(1023), "int/between"), A("size", "between", IntL(1024), IntL(2048), "int/between"),
                   A("size", "between", IntL(12), IntL(9), "int/between"), A("size", "between", SizeL(1024, "1k"), SizeL(2048, "2k"), "int/between"),
